@@ -182,6 +182,14 @@ def parseInput? : List String → Option Input
     if x < 4 then some (.padAxis x) else none
   | _ => none
 
+/-- `<key index>:<mod mask>` -/
+def parseKeyMask? (s : String) : Option Input :=
+  match s.splitOn ":" with
+  | [k, m] => do
+    let k ← k.toNat?
+    if k < 18 then some (.key k (← parseMask? m)) else none
+  | _ => none
+
 def parseOp? : List String → Option Op
   | ["spawn", e] => do some (.spawn (← e.toNat?))
   | ["insert", e, c, v] => do
@@ -204,6 +212,8 @@ inductive Cmd where
   | padAdd (g : Nat) | padDel (g : Nat) | padBtn (g b : Nat) (on : Bool) | padAxis (g x : Nat) (q : Rat)
   | ui (u : Nat) (st : Option Bool) | dt (q : Rat) | speed (q : Rat) | pause (b : Bool) | inject
   | react (f k : Nat) (o : Op) | post (o : Op) | frame | op (o : Op)
+  | route (r : Nat) | emod (id : Nat) (m : ModSpec) | econd (id : Nat) (c : CondSpec)
+  | presetCardinal (n e s w : Input) | presetBidir (p n : Input) | presetStick (right : Bool)
   | uConvert (v : Value) (d : Dim) | uAsBool (v : Value) | uActuated (v : Value) (q : Rat)
   | uAs1 (v : Value) | uAs2 (v : Value) | uAs3 (v : Value) | uZero (d : Dim)
   | uMod (m : ModSpec) | uCond (c : CondSpec) | uAct (a : Nat) (st : AState) | uTick (d sp : Rat)
@@ -250,7 +260,16 @@ def parseCmd? : List String → Option Cmd
   | ["dt", q] => do some (.dt (← parseRat? q))
   | ["speed", q] => do some (.speed (← parseRat? q))
   | ["pause", b] => do some (.pause (← parseBool? b))
-  | ["inject", m] => if m == "direct" || m == "events" then some .inject else none
+  | ["inject", m] => if m == "direct" || m == "events" || m == "first" then some .inject else none
+  | ["route", r] => do
+    let r ← r.toNat?
+    if r < 6 then some (.route r) else none
+  | "emod" :: id :: spec => do some (.emod (← id.toNat?) (← parseMod? spec))
+  | "econd" :: id :: spec => do some (.econd (← id.toNat?) (← parseCond? spec))
+  | ["preset", "cardinal", n, e, s, w] => do
+    some (.presetCardinal (← parseKeyMask? n) (← parseKeyMask? e) (← parseKeyMask? s) (← parseKeyMask? w))
+  | ["preset", "bidir", p, n] => do some (.presetBidir (← parseKeyMask? p) (← parseKeyMask? n))
+  | ["preset", "stick", side] => do some (.presetStick (← parseBool? side))
   | "react" :: f :: k :: op => do
     let o ← parseOp? op
     match o with
@@ -286,6 +305,21 @@ def showOptRat : Option Rat → String
 def showDelivery (d : Delivery) : String :=
   "dlv " ++ toString d.entity ++ " " ++ toString d.action ++ " " ++ showKind d.kind ++ " " ++ showState d.state
     ++ " " ++ showValue d.value ++ " " ++ showOptRat d.elapsed ++ " " ++ showOptRat d.fired
+
+/-- preset expansions (C19): what `Cardinal`, `Bidirectional` and `GamepadStick` bind, with their internal modifiers
+    (id 0: not instrumented, never logged) -/
+def cardinalBinds (n e s w : Input) : List InputBind :=
+  [{ input := n, mods := [Mod.swizzle 0 .yxz] },
+   { input := e },
+   { input := s, mods := [Mod.negate 0 true true true, Mod.swizzle 0 .yxz] },
+   { input := w, mods := [Mod.negate 0 true true true] }]
+
+def bidirBinds (p n : Input) : List InputBind :=
+  [{ input := p }, { input := n, mods := [Mod.negate 0 true true true] }]
+
+def stickBinds (right : Bool) : List InputBind :=
+  [{ input := .padAxis (if right then 2 else 0) },
+   { input := .padAxis (if right then 3 else 1), mods := [Mod.swizzle 0 .yxz] }]
 
 def showInv : Inv → String
   | .cond id v out _ => "inv " ++ toString id ++ " " ++ showValue v ++ " " ++ showState out
